@@ -328,6 +328,12 @@ HAPPS = {}
 def soap_headers(sx, p):
     """every SOAP header element that is sent reaches ctx.in_header at the position of its declared class,
     whichever other headers are present and in whatever order; absent headers are None"""
+    return _soap_headers(sx, p)
+
+
+def _soap_headers(sx, p, types_only=False):
+    """every SOAP header element that is sent reaches ctx.in_header at the position of its declared class,
+    whichever other headers are present and in whatever order; absent headers are None"""
     pname, validator = p
     if p not in HAPPS:
         P = PROTS[pname]
@@ -381,6 +387,14 @@ def soap_headers(sx, p):
         if ctx.out_error is not None:
             return False
         hdr, ga = HCAP.get('hdr'), HCAP.get('a')
+    if types_only:
+        # C04: whatever is in a header slot is an instance of the class declared for that slot
+        if hdr is None:
+            return True
+        if not isinstance(hdr, (list, tuple)):
+            hdr = [hdr]
+        return len(hdr) == 3 and all(x is None or type(x).__name__ == n
+                                     for x, n in zip(hdr, ('Session', 'Trace', 'Tenant')))
     ok = [sx.eq(ga, a)]
     if not any(present):
         ok.append(hdr is None or all(x is None for x in hdr))
